@@ -41,6 +41,8 @@ func runC02(c *Ctx) {
 	ruleRouteAuthenticatorsBuilt(c, "R02.6")
 	ruleRoutableAPIDelegates(c, "R02.2", "Authorizer", "AuthenticatorsFor")
 	ruleBearerCallbackGetsScopes(c, "R02.6")
+	ruleHandlerTableRead(c, "R02.1")
+	ruleResetAuthShadows(c, "R02.5")
 	ruleAuthorizeErrorsVerbatim(c, "R02.5")
 	// every route carries the registered authorizer — whatever its security requirements look like (an operation that
 	// also admits anonymous callers still has its authenticated principals authorized)
@@ -68,6 +70,16 @@ func ruleR02_3(c *Ctx) {
 	calls := callsIn(f, authCall)
 	c.obRF("R02.3", f, "consults-authenticators", len(calls) >= 1, "the AND group consults the registered authenticators", "no call of runtime.Authenticator.Authenticate found")
 	rets := returnsOf(f)
+	// an alternative that does not apply leaves no trace on the matched route: route.Authenticator is assigned only on
+	// the way to an applying exit (NeedsAuth() reads it: a not-applicable alternative that marked the route would make a
+	// later consultation of the same route skip authentication)
+	for _, st := range fieldStores(f, matchedRouteT, "Authenticator") {
+		for _, r := range rets {
+			if b, isB := constBool(r.Results[0]); isB && !b {
+				c.obI("R02.3", st, "route-marked-only-by-an-applying-alternative", !pathExists(f, st, r, nil, nil), "route.Authenticator is assigned only where the group goes on to report applies == true", "after marking the route the group can still answer 'not applicable'")
+			}
+		}
+	}
 	for _, ci := range calls {
 		a := ci.(*ssa.Call)
 		applies, princ, err := resultOf(a, 0), resultOf(a, 1), resultOf(a, 2)
@@ -697,7 +709,8 @@ func ruleRouteAuthenticatorsBuilt(c *Ctx, rid string) {
 			if !ok || calleeName(&call.Call) != "builtin append" {
 				return false
 			}
-			return typeStr(call.Type()) == elemType
+			// (a named slice type — RouteAuthenticators — is the slice it names)
+			return typeStr(call.Type()) == elemType || typeStr(call.Type().Underlying()) == elemType
 		}
 	}
 	okOuter := outer[0].everyIteration(isAppendOf("[]rt/middleware.RouteAuthenticator"))
